@@ -1,0 +1,316 @@
+//go:build verif
+
+// Contracts of package sod for the sodvc verifier (/verif). This file holds
+// comments only; it is compiled only with the build tag "verif" and adds no
+// declaration. Each block is keyed by the go/ssa name of the function.
+package sod
+
+//@ func (*indexedField).less
+//@ serves C02 C03 C13 C19
+//@ theory concrete
+//@ requires [samekind] f != nil && other != nil && ordv(f.Value) && ordv(other.Value) && rank(f.Value) == rank(other.Value)
+//@ ensures [C02 less.is-klt] result == klt(f.Value, other.Value)
+//@ pure
+
+//@ func (*indexedField).equal
+//@ serves C02 C03 C13 C19
+//@ theory concrete
+//@ requires [samekind] f != nil && other != nil && ordv(f.Value) && ordv(other.Value) && rank(f.Value) == rank(other.Value)
+//@ ensures [C02 equal.is-keq] result == keq(f.Value, other.Value)
+//@ pure
+
+//@ func (*indexedField).greater
+//@ serves C02 C13 C19
+//@ requires [samekind] f != nil && other != nil && ordv(f.Value) && ordv(other.Value) && rank(f.Value) == rank(other.Value)
+//@ ensures [C02 greater.is-klt-flipped] result == klt(other.Value, f.Value)
+//@ pure
+
+//@ func (*indexedField).deepEqual
+//@ serves C02 C03 C19
+//@ requires [samekind] f != nil && other != nil && ordv(f.Value) && ordv(other.Value) && rank(f.Value) == rank(other.Value)
+//@ ensures [C03 deepEqual] result == (f.ObjectId == other.ObjectId && keq(f.Value, other.Value))
+//@ pure
+
+//@ func (*fieldIndex).Len
+//@ serves C02 C13 C19
+//@ requires in != nil
+//@ ensures result == len(in.Index)
+//@ pure
+
+//@ func (*fieldIndex).lastIndex
+//@ serves C02 C13 C19
+//@ requires in != nil
+//@ ensures result == len(in.Index) - 1
+//@ pure
+
+//@ func (*fieldIndex).insertionIndexRec
+//@ serves C02 C03 C13 C19
+//@ requires [pre] idxPre(in, k)
+//@ requires [range] len(in.Index) == 0 || (0 <= i && i < j && j <= len(in.Index))
+//@ requires [left] forall(x, 0, i, !klt(in.Index[x].Value, k.Value))
+//@ requires [right] forall(x, j, len(in.Index), klt(in.Index[x].Value, k.Value))
+//@ ensures [C02 split.range] imp(len(in.Index) == 0, result == 0) && imp(len(in.Index) > 0, i <= result && result <= j)
+//@ ensures [C02 split] split(in, k.Value, result)
+//@ decreases j - i
+//@ pure
+
+//@ func (*fieldIndex).InsertionIndex
+//@ serves C02 C03 C13 C19
+//@ requires [pre] idxPre(in, k)
+//@ ensures [C02 split] split(in, k.Value, result)
+//@ pure
+
+//@ func (*fieldIndex).rangeEqual
+//@ serves C02 C03 C13 C19
+//@ requires [pre] idxPre(in, k)
+//@ ensures [C02 eqrange.bounds] 0 <= i && i <= j+1 && j+1 <= len(in.Index)
+//@ ensures [C02 eqrange.iff] forall(x, 0, len(in.Index), (i <= x && x <= j) == keq(in.Index[x].Value, k.Value))
+//@ ensures [C02 eqrange.split] split(in, k.Value, j+1)
+//@ loop 1 invariant [bounds] -1 <= i && i <= j && j == old(j)
+//@ loop 1 invariant [eq] forall(x, i+1, j+1, keq(in.Index[x].Value, k.Value))
+//@ loop 1 decreases i + 1
+//@ pure
+
+// ---- range extractors: the result is, position by position, a window of the
+// ---- index (or a fresh copy of it); "modifies nothing" except fresh arrays.
+
+//@ func (*fieldIndex).SearchEqual
+//@ serves C02 C03 C13 C19 C20
+//@ requires [pre] idxPre(in, value)
+//@ ghost lo int := i
+//@ ensures [C02 eq.window] 0 <= lo && lo+len(result) <= len(in.Index)
+//@ ensures [C02 C13 eq.positional] forall(y, 0, len(result), result[y] == in.Index[lo+y])
+//@ ensures [C02 eq.iff] forall(x, 0, len(in.Index), keq(in.Index[x].Value, value.Value) == (lo <= x && x < lo+len(result)))
+//@ ensures [C20 eq.view-or-fresh] fresh(arr(result)) || (arr(result) == arr(in.Index) && off(result) == off(in.Index)+lo) || len(result) == 0
+//@ modifies nothing
+//@ allocates Elem[*indexedField]
+
+//@ func (*fieldIndex).Has
+//@ serves C02 C19
+//@ requires [pre] idxPre(in, value)
+//@ ensures [C02 has.iff] result == !forall(x, 0, len(in.Index), !keq(in.Index[x].Value, value.Value))
+//@ modifies nothing
+//@ allocates Elem[*indexedField]
+
+//@ func (*fieldIndex).SearchNotEqual
+//@ serves C02 C13 C19 C20
+//@ requires [pre] idxPre(in, value)
+//@ ghost lo int := i
+//@ ghost cnt int := j + 1 - i
+//@ ensures [C02 ne.window] 0 <= lo && 0 <= cnt && lo+cnt <= len(in.Index) && len(f) == len(in.Index)-cnt
+//@ ensures [C02 C13 ne.positional-left] forall(y, 0, lo, f[y] == in.Index[y])
+//@ ensures [C02 C13 ne.positional-right] forall(y, lo, len(f), f[y] == in.Index[y+cnt])
+//@ ensures [C02 ne.iff] forall(x, 0, len(in.Index), keq(in.Index[x].Value, value.Value) == (lo <= x && x < lo+cnt))
+//@ ensures [C20 ne.fresh] fresh(arr(f))
+//@ modifies nothing
+//@ allocates Elem[*indexedField]
+
+//@ func (*fieldIndex).SearchGreaterOrEqual
+//@ serves C02 C13 C19 C20
+//@ requires [pre] idxPre(in, value)
+//@ ensures [C02 ge.split] split(in, value.Value, len(result))
+//@ ensures [C02 C13 ge.positional] forall(y, 0, len(result), result[y] == in.Index[y])
+//@ ensures [C20 ge.view-or-fresh] fresh(arr(result)) || (arr(result) == arr(in.Index) && off(result) == off(in.Index))
+//@ modifies nothing
+//@ allocates Elem[*indexedField]
+
+//@ func (*fieldIndex).SearchLess
+//@ serves C02 C13 C19 C20
+//@ requires [pre] idxPre(in, value)
+//@ ensures [C02 lt.split] len(result) <= len(in.Index) && split(in, value.Value, len(in.Index)-len(result))
+//@ ensures [C02 C13 lt.positional] forall(y, 0, len(result), result[y] == in.Index[len(in.Index)-len(result)+y])
+//@ ensures [C20 lt.view-or-fresh] fresh(arr(result)) || (arr(result) == arr(in.Index) && off(result) == off(in.Index)+len(in.Index)-len(result))
+//@ modifies nothing
+//@ allocates Elem[*indexedField]
+
+//@ func (*fieldIndex).SearchGreater
+//@ serves C02 C13 C19 C20
+//@ requires [pre] idxPre(in, value)
+//@ ensures [C02 gt.len] len(f) <= len(in.Index)
+//@ ensures [C02 C13 gt.positional] forall(y, 0, len(f), f[y] == in.Index[y])
+//@ ensures [C02 gt.sound] forall(y, 0, len(f), klt(value.Value, in.Index[y].Value))
+//@ ensures [C02 gt.complete] forall(x, len(f), len(in.Index), !klt(value.Value, in.Index[x].Value))
+//@ ensures [C20 gt.view-or-fresh] fresh(arr(f)) || (arr(f) == arr(in.Index) && off(f) == off(in.Index))
+//@ loop 1 invariant [bounds] -1 <= i && i < len(in.Index) || (i == -1 && len(in.Index) == 0)
+//@ loop 1 invariant [rest-not-greater] forall(x, i+1, len(in.Index), !klt(value.Value, in.Index[x].Value))
+//@ loop 1 decreases i + 1
+//@ modifies nothing
+//@ allocates Elem[*indexedField]
+
+//@ func (*fieldIndex).SearchLessOrEqual
+//@ serves C02 C13 C19 C20
+//@ requires [pre] idxPre(in, value)
+//@ ensures [C02 le.len] len(result) <= len(in.Index)
+//@ ensures [C02 C13 le.positional] forall(y, 0, len(result), result[y] == in.Index[len(in.Index)-len(result)+y])
+//@ ensures [C02 le.iff] forall(x, 0, len(in.Index), (x >= len(in.Index)-len(result)) == !klt(value.Value, in.Index[x].Value))
+//@ ensures [C20 le.view-or-fresh] fresh(arr(result)) || (arr(result) == arr(in.Index) && off(result) == off(in.Index)+len(in.Index)-len(result))
+//@ loop 1 invariant [bounds] -1 <= i && i < len(in.Index) || (i == -1 && len(in.Index) == 0)
+//@ loop 1 invariant [rest-not-greater] forall(x, i+1, len(in.Index), !klt(value.Value, in.Index[x].Value))
+//@ loop 1 decreases i + 1
+//@ modifies nothing
+//@ allocates Elem[*indexedField]
+
+// ---- index mutators ------------------------------------------------------
+
+//@ func (*fieldIndex).SearchKey
+//@ serves C03 C19
+//@ requires [pre] idxPre(in, k)
+//@ ensures [C03 key.found] imp(ok, 0 <= i && i < len(in.Index) && in.Index[i].ObjectId == k.ObjectId && keq(in.Index[i].Value, k.Value))
+//@ ensures [C03 key.absent] imp(!ok, forall(x, 0, len(in.Index), !(in.Index[x].ObjectId == k.ObjectId && keq(in.Index[x].Value, k.Value))))
+//@ loop 1 let i0 int := i
+//@ loop 1 invariant [bounds] i0 <= i && i <= j+1 && i0 == old(i0) && j == old(j)
+//@ loop 1 invariant [none-so-far] forall(x, i0, i, !(in.Index[x].ObjectId == k.ObjectId && keq(in.Index[x].Value, k.Value)))
+//@ loop 1 decreases j + 1 - i
+//@ pure
+
+//@ func (*fieldIndex).insert
+//@ serves C02 C03 C13 C19 C20
+//@ requires [wf] wfField(in)
+//@ requires [field] field != nil && allocated(field) && ordv(field.Value) && sameRank(in, field.Value)
+//@ requires [new-id] !has(in.objectIds, field.ObjectId)
+//@ requires [C03 unique-free] imp(in.Constraints.Unique, forall(x, 0, len(in.Index), !keq(in.Index[x].Value, field.Value)))
+//@ ghost r int := i
+//@ ensures [C02 ins.len] len(in.Index) == old(len(in.Index)) + 1
+//@ ensures [C02 ins.at-split] old(split(in, field.Value, r))
+//@ ensures [C02 C13 ins.left] forall(x, 0, r, in.Index[x] == old(in.Index[x]))
+//@ ensures [C02 ins.here] in.Index[r] == field
+//@ ensures [C02 C13 ins.right] forall(x, r+1, len(in.Index), in.Index[x] == old(in.Index[x-1]))
+//@ ensures [C03 ins.ids] in.objectIds == old(in.objectIds) && forallk(id, uint64, has(in.objectIds, id) == (old(has(in.objectIds, id)) || id == field.ObjectId))
+//@ ensures [C03 ins.entries] in.objectIds[field.ObjectId] == field && forallk(id, uint64, imp(id != field.ObjectId, in.objectIds[id] == old(in.objectIds[id])))
+//@ ensures [C02 C03 ins.wf] wfField(in)
+//@ ensures [C20 ins.array] arr(in.Index) == old(arr(in.Index)) || fresh(arr(in.Index))
+//@ atexit in.pos id := ite(id == field.ObjectId, r, ite(old(in.pos[id]) >= r, old(in.pos[id]) + 1, old(in.pos[id])))
+//@ modifies fieldIndex.Index@in, fieldIndex.pos@in, Elem[*indexedField]@arr(in.Index), MapDom[uint64,*indexedField]@in.objectIds, MapVal[uint64,*indexedField]@in.objectIds, MapCard[uint64,*indexedField]@in.objectIds
+//@ allocates Elem[*indexedField]
+
+//@ func newIndexedField
+//@ serves C02 C03 C19
+//@ ensures [C02 nif.fresh] result0 != nil && fresh(result0) && result0.ObjectId == objid
+//@ ensures [C02 C19 nif.supported] (result1 == nil) == supported(value)
+//@ ensures [C02 nif.norm] imp(result1 == nil, result0.Value == norm(value) && ordv(result0.Value))
+//@ ensures [C19 nif.class] imp(result1 != nil, errIs(result1, ErrUnknownKeyType))
+//@ modifies nothing
+//@ allocates indexedField.Value, indexedField.ObjectId, Elem[interface{}]
+
+//@ func searchField
+//@ serves C02 C03 C19
+//@ ensures [C02 sf.fresh] k != nil && fresh(k)
+//@ ensures [C02 C19 sf.supported] (err == nil) == supported(value)
+//@ ensures [C02 sf.norm] imp(err == nil, k.Value == norm(value) && ordv(k.Value))
+//@ ensures [C19 sf.class] imp(err != nil, errIs(err, ErrUnknownKeyType))
+//@ modifies nothing
+//@ allocates indexedField.Value, indexedField.ObjectId, Elem[interface{}]
+
+//@ func (*indexedField).valueTypeString
+//@ serves C02 C19
+//@ requires [ordered] f != nil && ordv(f.Value)
+//@ ensures [C02 vts] castRank(result) == rank(f.Value)
+//@ modifies nothing
+
+//@ func (*fieldIndex).Satisfy
+//@ serves C03 C19
+//@ requires [pre] idxPre(in, fvalue) && wfMapA(in)
+//@ ensures [C03 satisfy.iff] (err == nil) == (!in.Constraints.Unique || forall(x, 0, len(in.Index), imp(keq(in.Index[x].Value, fvalue.Value), exist && in.Index[x].ObjectId == objid)))
+//@ ensures [C03 satisfy.class] err == nil || err == ErrConstraintUnique
+//@ modifies nothing
+//@ allocates Elem[*indexedField]
+
+//@ func (*fieldIndex).Insert
+//@ serves C02 C03 C19 C20
+//@ requires [wf] wfField(in)
+//@ requires [new-id] !has(in.objectIds, objid)
+//@ requires [C02 same-kind] imp(supported(value), sameRank(in, norm(value)))
+//@ requires [C03 unique-free] imp(in.Constraints.Unique && supported(value), forall(x, 0, len(in.Index), !keq(in.Index[x].Value, norm(value))))
+//@ ghost r int := insert_r
+//@ ghost f *indexedField := field
+//@ ensures [C02 C19 Ins.supported] (err == nil) == supported(value)
+//@ ensures [C19 Ins.class] imp(err != nil, errIs(err, ErrUnknownKeyType))
+//@ ensures [C06 Ins.error-no-change] imp(err != nil, unchanged(fieldIndex.Index, fieldIndex.pos, MapDom[uint64,*indexedField], MapVal[uint64,*indexedField], MapCard[uint64,*indexedField]) && forall(x, 0, len(in.Index), in.Index[x] == old(in.Index[x])))
+//@ ensures [C02 Ins.len] imp(err == nil, len(in.Index) == old(len(in.Index)) + 1 && 0 <= r && r <= old(len(in.Index)))
+//@ ensures [C02 Ins.entry] imp(err == nil, in.Index[r] == f && fresh(f) && f.Value == norm(value) && f.ObjectId == objid)
+//@ ensures [C02 C13 Ins.left] imp(err == nil, forall(x, 0, r, in.Index[x] == old(in.Index[x])))
+//@ ensures [C02 C13 Ins.right] imp(err == nil, forall(x, r+1, len(in.Index), in.Index[x] == old(in.Index[x-1])))
+//@ ensures [C03 Ins.ids] in.objectIds == old(in.objectIds) && forallk(id, uint64, has(in.objectIds, id) == (old(has(in.objectIds, id)) || (err == nil && id == objid)))
+//@ ensures [C03 Ins.entries] imp(err == nil, in.objectIds[objid] == f) && forallk(id, uint64, imp(id != objid, in.objectIds[id] == old(in.objectIds[id])))
+//@ ensures [C02 C03 Ins.wf] wfField(in)
+//@ ensures [C20 Ins.array] arr(in.Index) == old(arr(in.Index)) || fresh(arr(in.Index))
+//@ modifies fieldIndex.Index@in, fieldIndex.pos@in, Elem[*indexedField]@arr(in.Index), MapDom[uint64,*indexedField]@in.objectIds, MapVal[uint64,*indexedField]@in.objectIds, MapCard[uint64,*indexedField]@in.objectIds
+//@ allocates Elem[*indexedField], indexedField.Value, indexedField.ObjectId, Elem[interface{}]
+
+//@ func (*fieldIndex).Delete
+//@ serves C02 C03 C11 C19 C20
+//@ requires [wf] wfField(in)
+//@ requires [C19 known-id] has(in.objectIds, objid)
+//@ let p int := in.pos[objid]
+//@ ensures [C02 del.len] len(in.Index) == old(len(in.Index)) - 1
+//@ ensures [C02 C13 del.left] forall(x, 0, p, in.Index[x] == old(in.Index[x]))
+//@ ensures [C02 C13 del.right] forall(x, p, len(in.Index), in.Index[x] == old(in.Index[x+1]))
+//@ ensures [C03 del.ids] in.objectIds == old(in.objectIds) && forallk(id, uint64, has(in.objectIds, id) == (old(has(in.objectIds, id)) && id != objid))
+//@ ensures [C03 del.entries] forallk(id, uint64, imp(id != objid, in.objectIds[id] == old(in.objectIds[id])))
+//@ ensures [C02 C03 del.wf] wfField(in)
+//@ ensures [C20 del.array] arr(in.Index) == old(arr(in.Index)) || fresh(arr(in.Index))
+//@ atexit in.pos id := ite(old(in.pos[id]) > p, old(in.pos[id]) - 1, old(in.pos[id]))
+//@ modifies fieldIndex.Index@in, fieldIndex.pos@in, Elem[*indexedField]@arr(in.Index), MapDom[uint64,*indexedField]@in.objectIds, MapVal[uint64,*indexedField]@in.objectIds, MapCard[uint64,*indexedField]@in.objectIds
+//@ allocates Elem[*indexedField]
+
+//@ func (*fieldIndex).Control
+//@ serves C11 C19
+//@ requires [entries] in != nil && wfEntries(in)
+//@ ensures [C11 control.iff] result == wfOrder(in)
+//@ loop 1 invariant [bounds] -1 <= rangeindex && rangeindex < len(in.Index) && len(in.Index) > 0
+//@ loop 1 invariant [last] imp(rangeindex >= 0, v == in.Index[rangeindex]) && imp(rangeindex < 0, v == in.Index[0])
+//@ loop 1 invariant [prefix-ordered] forall(a, 0, rangeindex+1, forall(b, a+1, rangeindex+1, !klt(in.Index[a].Value, in.Index[b].Value)))
+//@ loop 1 decreases len(in.Index) - rangeindex
+//@ pure
+
+//@ func emptyFieldIndex
+//@ serves C02 C19
+//@ ensures [C02 empty] result != nil && fresh(result) && len(result.Index) == 0 && result.objectIds != nil && fresh(result.objectIds) && fresh(arr(result.Index))
+//@ ensures [C02 empty.map] forallk(id, uint64, !has(result.objectIds, id))
+//@ ensures [C02 empty.unique] !result.Constraints.Unique
+//@ modifies nothing
+//@ allocates fieldIndex.Name, fieldIndex.Cast, fieldIndex.Constraints, fieldIndex.Index, fieldIndex.objectIds, fieldIndex.nameSplit, fieldIndex.pos, MapDom[uint64,*indexedField], MapCard[uint64,*indexedField], Elem[*indexedField]
+
+//@ func (*fieldIndex).Update
+//@ serves C02 C03 C19 C20
+//@ requires [wf] wfField(in)
+//@ requires [C19 known-id] has(in.objectIds, objid)
+//@ requires [C02 same-kind] imp(supported(value) && len(in.Index) > 1, rank(norm(value)) == rank(in.Index[0].Value))
+//@ requires [C03 unique-free] imp(in.Constraints.Unique && supported(value), forall(x, 0, len(in.Index), imp(keq(in.Index[x].Value, norm(value)), in.Index[x].ObjectId == objid)))
+//@ ensures [C02 C19 upd.supported] (err == nil) == supported(value)
+//@ ensures [C19 upd.class] imp(err != nil, errIs(err, ErrUnknownKeyType))
+//@ ensures [C03 upd.ids] in.objectIds == old(in.objectIds) && forallk(id, uint64, has(in.objectIds, id) == ((old(has(in.objectIds, id)) && id != objid) || (err == nil && id == objid)))
+//@ ensures [C03 upd.entries] forallk(id, uint64, imp(id != objid, in.objectIds[id] == old(in.objectIds[id])))
+//@ ensures [C02 upd.entry] imp(err == nil, fresh(in.objectIds[objid]) && in.objectIds[objid].Value == norm(value) && in.objectIds[objid].ObjectId == objid)
+//@ ensures [C02 upd.len] imp(err == nil, len(in.Index) == old(len(in.Index)))
+//@ ensures [C02 C03 upd.wf] wfField(in)
+//@ ensures [C20 upd.array] arr(in.Index) == old(arr(in.Index)) || fresh(arr(in.Index))
+//@ modifies fieldIndex.Index@in, fieldIndex.pos@in, Elem[*indexedField]@arr(in.Index), MapDom[uint64,*indexedField]@in.objectIds, MapVal[uint64,*indexedField]@in.objectIds, MapCard[uint64,*indexedField]@in.objectIds
+//@ allocates Elem[*indexedField], indexedField.Value, indexedField.ObjectId, Elem[interface{}]
+
+//@ func (*fieldIndex).Constrain
+//@ serves C02 C13 C19 C20
+//@ requires [wf] wfField(in)
+//@ requires [fields] forall(x, 0, len(fields), fields[x] != nil && allocated(fields[x]))
+//@ requires [distinct-ids] forall(a, 0, len(fields), forall(b, a+1, len(fields), fields[a].ObjectId != fields[b].ObjectId))
+//@ ghost w garray[uint64]int := w
+//@ ensures [C20 con.fresh] new != nil && fresh(new) && fresh(new.objectIds) && fresh(arr(new.Index))
+//@ ensures [C02 C13 con.wf] wfField(new)
+//@ ensures [C02 con.subset] forallk(id, uint64, imp(has(new.objectIds, id), has(in.objectIds, id) && new.objectIds[id] == in.objectIds[id]))
+//@ ensures [C02 con.only] forallk(id, uint64, imp(has(new.objectIds, id), 0 <= w[id] && w[id] < len(fields) && fields[w[id]].ObjectId == id && trig(w[id])))
+//@ ensures [C02 con.complete] forall(x, 0, len(fields), imp(has(in.objectIds, fields[x].ObjectId), has(new.objectIds, fields[x].ObjectId)))
+//@ ensures [C20 con.in-untouched] in.Index == old(in.Index) && forall(x, 0, len(in.Index), in.Index[x] == old(in.Index[x]))
+//@ loop 1 ghost w garray[uint64]int
+//@ loop 1 update w id := ite(id == fields[rangeindex+1].ObjectId && has(in.objectIds, id), rangeindex+1, w[id])
+//@ loop 1 invariant [bounds] -1 <= rangeindex && rangeindex < len(fields) || (rangeindex == -1 && len(fields) == 0)
+//@ loop 1 invariant [new] new != nil && fresh(new) && fresh(new.objectIds) && fresh(arr(new.Index)) && !new.Constraints.Unique
+//@ loop 1 invariant [wf-new] wfField(new)
+//@ loop 1 invariant [frame] preserved(fieldIndex.Index, fieldIndex.pos, Elem[*indexedField], MapDom[uint64,*indexedField], MapVal[uint64,*indexedField], MapCard[uint64,*indexedField])
+//@ loop 1 invariant [fields-stable] forall(x, 0, len(fields), fields[x] == old(fields[x]))
+//@ loop 1 invariant [in-map-stable] in.objectIds == old(in.objectIds) && forallk(id, uint64, has(in.objectIds, id) == old(has(in.objectIds, id)) && in.objectIds[id] == old(in.objectIds[id]))
+//@ loop 1 invariant [rank] imp(len(new.Index) > 0 && len(in.Index) > 0, rank(new.Index[0].Value) == rank(in.Index[0].Value))
+//@ loop 1 invariant [subset] forallk(id, uint64, imp(has(new.objectIds, id), has(in.objectIds, id) && new.objectIds[id] == in.objectIds[id] && 0 <= w[id] && w[id] <= rangeindex && fields[w[id]].ObjectId == id && trig(w[id])))
+//@ loop 1 invariant [complete] forall(x, 0, rangeindex+1, imp(has(in.objectIds, fields[x].ObjectId), has(new.objectIds, fields[x].ObjectId)))
+//@ loop 1 decreases len(fields) - rangeindex
+//@ modifies nothing
+//@ allocates fieldIndex.Name, fieldIndex.Cast, fieldIndex.Constraints, fieldIndex.Index, fieldIndex.objectIds, fieldIndex.nameSplit, fieldIndex.pos, MapDom[uint64,*indexedField], MapVal[uint64,*indexedField], MapCard[uint64,*indexedField], Elem[*indexedField]
